@@ -39,7 +39,11 @@ GENERIC = (
     "abbreviating long identifiers; duplicate CreatePair allowed when the whitelist is empty; a waiver of the funds check when a "
     "receiver is named; a dust-withdrawal / dust close-out special case; the wire spelling of hook messages; Ord for asset infos "
     "differing from byte order; a deployer bypass of the whitelist on stand-alone pairs; a reciprocal of a truncated price; "
-    "trimming trailing zeros of a numeral; AssertMinimumReceive accepted when the caller is the receiver"
+    "trimming trailing zeros of a numeral; AssertMinimumReceive accepted when the caller is the receiver; rescaling the "
+    "first-provision minimums on re-registration; a fast path comparing truncated ratios in the LP share; idle balances paid out by "
+    "the first provision; the LP token's display name echoed into attributes; a refund of unused attached coins by the router; "
+    "de-duplication of listing pages by a rendered asset set; dropping the hops before a return to the entry asset; a guard on "
+    "the gap between decimals that skips the pair's update; funds checks through a Decimal ratio"
 )
 
 
